@@ -2,6 +2,7 @@ package main
 
 import (
 	"go/types"
+	"strconv"
 	"strings"
 
 	"golang.org/x/tools/go/ssa"
@@ -48,6 +49,7 @@ func runC07(c *Ctx) {
 	c.rule("V4", "NewZipFileSystem/NewTarFileSystem give the opened archive file to the filesystem as its closeable resource; the constructor wraps it; VFS.Close closes it", 4)
 	c.rule("V5", "closeableResource.Close sets closed=true before every nil return; IsClosed returns that flag", 2)
 	c.rule("Z1", "zip walker: entry name = filepath.Rel(source, path) (+\"/\" for directories), Modified = info.ModTime(), content = the opened path copied whole into the entry writer", 5)
+	c.rule("Z3", "unzip: the name joined to the destination is the entry's zip.FileHeader.Name itself (charset transcoding aside)", 1)
 	c.rule("Z2", "unzip: file times restored from the entry's info after the copy; directory infos recorded and restored after the loop before the successful return", 3)
 
 	c.c07Guard()
@@ -56,6 +58,7 @@ func runC07(c *Ctx) {
 	c.c07Resource()
 	c.c07ZipWalker()
 	c.c07UnzipTimes()
+	c.c07NamesVerbatim()
 }
 
 func (c *Ctx) c07Guard() {
@@ -542,6 +545,50 @@ func resolveFreeVarName(v ssa.Value) string {
 		v = u.X
 	}
 	return v.Name()
+}
+
+// c07NamesVerbatim (Z3): the round trip reproduces "the same relative paths … for any legal names". The zip side
+// writes filepath.Rel (Z1); the unzip side must join exactly the entry's name to the destination: anything that
+// rewrites the name first (separator "normalisation", trimming, case folding) turns a legal name such as "we\\ird"
+// into a different path. Charset transcoding of non-UTF-8 names is the one admitted transformation.
+func (c *Ctx) c07NamesVerbatim() {
+	f := c.fn(fsPkgRel, "(*VFS).unzip")
+	c.FuncsSeen[fname(f)] = true
+	n := 0
+	allInstrs(f, func(in ssa.Instruction) {
+		cl, ok := in.(*ssa.Call)
+		if !ok {
+			return
+		}
+		g := staticCallee(&cl.Call)
+		if g == nil || g.Name() != "sanitiseZipExtractPath" || len(cl.Call.Args) != 3 {
+			return
+		}
+		n++
+		key := fname(f) + "/entry-name-verbatim"
+		if n > 1 {
+			key += "#" + strconv.Itoa(n)
+		}
+		bad := ""
+		ls := sources(cl.Call.Args[1], deriveOpts{through: func(n string) bool { return strings.HasSuffix(n, ".determineUnzippedFilepath") }})
+		for _, l := range ls {
+			if _, ok := fieldLoad(l, "FileHeader", "Name"); ok {
+				continue
+			}
+			bad = l.String()
+			if lc, isCall := l.(*ssa.Call); isCall {
+				bad = "the result of " + calleeFull(&lc.Call)
+			}
+		}
+		if len(ls) == 0 {
+			bad = "nothing"
+		}
+		c.check(bad == "", "Z3", key, c.ipos(cl), "the name joined to the destination is zip.FileHeader.Name itself",
+			"the name joined to the destination is not the entry's own name but "+bad+": a legal name containing the rewritten characters (a backslash is a legal POSIX name character) is extracted under a different relative path and the returned list names paths that were never in the tree")
+	})
+	if n == 0 {
+		c.violate("Z3", fname(f)+"/entry-name-verbatim", c.pos(f.Pos()), "unzip no longer derives the extraction path through sanitiseZipExtractPath")
+	}
 }
 
 func (c *Ctx) c07UnzipTimes() {
